@@ -1,0 +1,22 @@
+//go:build verif
+
+package tools
+
+// Hooks for the C20 verification harness (quorum-loss repair by
+// ImportSnapshot): the unexported pure steps of ImportSnapshot. Add-only;
+// compiled only with -tags verif.
+
+var (
+	// VerifCheckImportSettings is checkImportSettings.
+	VerifCheckImportSettings = checkImportSettings
+	// VerifCheckMembers is checkMembers.
+	VerifCheckMembers = checkMembers
+	// VerifGetProcessedSnapshotRecord is getProcessedSnapshotRecord.
+	VerifGetProcessedSnapshotRecord = getProcessedSnapshotRecord
+	// VerifIsCompleteSnapshotImage is isCompleteSnapshotImage.
+	VerifIsCompleteSnapshotImage = isCompleteSnapshotImage
+	// VerifGetSnapshotFilepath is getSnapshotFilepath.
+	VerifGetSnapshotFilepath = getSnapshotFilepath
+	// VerifGetSnapshotRecord is getSnapshotRecord.
+	VerifGetSnapshotRecord = getSnapshotRecord
+)
